@@ -214,6 +214,214 @@ func run(w *world, v *vec, o *out) {
 	}
 }
 
+// ---- replies decoded by the p9 client (Rreaddir, Rwalk, Rread, Rxattrlist, Rreadlink)
+
+// cworld: two p9 clients on two connections to one server over the scripted backend.
+type cworld struct {
+	auto  *puppet.Auto
+	mu    sync.Mutex
+	next  puppet.Result // the answer to the next backend call of kind `kind`
+	kind  string
+	fill  byte
+	dirs  [2]p9.File
+	files [2]p9.File
+	links [2]p9.File
+	seq   int
+	walkI int
+}
+
+func newCWorld() (*cworld, error) {
+	w := &cworld{auto: puppet.NewAuto()}
+	w.auto.Answer = func(c *puppet.Call) (puppet.Result, bool) {
+		w.mu.Lock()
+		defer w.mu.Unlock()
+		if c.K != w.kind {
+			return puppet.Result{}, false
+		}
+		if c.K == "ReadAt" {
+			for i := range c.Buf {
+				c.Buf[i] = w.fill
+			}
+			return puppet.Result{Res: "ok", N: len(c.Buf)}, true
+		}
+		r := w.next
+		if c.K == "Walk" {
+			// the server walks a multi-component path one name at a time
+			r.NF = w.auto.C.AutoID()
+			r.Mode = "dir"
+			if q, ok := r.Vals["qids"].([]p9.QID); ok {
+				k := len(c.Names)
+				if w.walkI+k > len(q) {
+					return puppet.Result{Res: "EIO"}, true
+				}
+				r.Vals = map[string]any{"qids": append([]p9.QID{}, q[w.walkI:w.walkI+k]...)}
+				w.walkI += k
+			}
+		}
+		return r, true
+	}
+	srv := p9.NewServer(&puppet.Attacher{C: w.auto.C})
+	for c := 0; c < 2; c++ {
+		a, b := peer.NewDuplexPair()
+		go srv.Handle(b, b)
+		cl, err := p9.NewClient(a)
+		if err != nil {
+			return nil, err
+		}
+		root, err := cl.Attach("")
+		if err != nil {
+			return nil, err
+		}
+		_, d, err := root.Walk([]string{"d"})
+		if err != nil {
+			return nil, err
+		}
+		if _, _, err := d.Open(p9.ReadOnly); err != nil {
+			return nil, err
+		}
+		_, f, err := root.Walk([]string{"f1"})
+		if err != nil {
+			return nil, err
+		}
+		if _, _, err := f.Open(p9.ReadWrite); err != nil {
+			return nil, err
+		}
+		_, l, err := root.Walk([]string{"l1"})
+		if err != nil {
+			return nil, err
+		}
+		w.dirs[c], w.files[c], w.links[c] = d, f, l
+	}
+	return w, nil
+}
+
+// runClient: the history's messages are replies the client decodes; what each call returned must be the content
+// of its own reply when it returns AND in every later state (MsgCache.tla NoCarryOver is a state invariant over
+// everything handed out so far): all earlier results are compared again after every later message.
+func runClient(w *cworld, v *vec, o *out) {
+	o.Cases++
+	type handed struct {
+		desc string
+		got  func() string
+		want string
+	}
+	var all []handed
+	for i, h := range v.Hist {
+		c, n := h[0]-1, h[1]
+		w.seq++
+		o.Requests++
+		id := fmt.Sprintf("r%d", w.seq)
+		desc := fmt.Sprintf("%s history %v, message %d (connection %d, %d elements)", v.Typ, v.Hist, i+1, c+1, n)
+		var hd handed
+		hd.desc = desc
+		switch v.Typ {
+		case "Rreaddir":
+			ents := make(p9.Dirents, n)
+			for j := range ents {
+				ents[j] = p9.Dirent{QID: p9.QID{Type: p9.TypeRegular, Path: uint64(w.seq*100 + j)}, Offset: uint64(j + 1), Type: p9.TypeRegular, Name: fmt.Sprintf("%s_%d", id, j)}
+			}
+			w.mu.Lock()
+			w.kind, w.next = "Readdir", puppet.Result{Res: "ok", Vals: map[string]any{"entries": append(p9.Dirents{}, ents...)}}
+			w.mu.Unlock()
+			got, err := w.dirs[c].Readdir(0, 8192)
+			if err != nil {
+				o.Findings = append(o.Findings, fmt.Sprintf("%s: %v", desc, err))
+				return
+			}
+			hd.want = fmt.Sprint(ents)
+			hd.got = func() string { return fmt.Sprint(got) }
+			if n == 0 {
+				hd.want = fmt.Sprint(p9.Dirents{})
+				hd.got = func() string { return fmt.Sprint(append(p9.Dirents{}, got...)) }
+			}
+		case "Rwalk":
+			names := make([]string, n)
+			qids := make([]p9.QID, n)
+			for j := range names {
+				names[j] = fmt.Sprintf("%s_%d", id, j)
+				qids[j] = p9.QID{Type: p9.TypeDir, Version: uint32(j), Path: uint64(w.seq*100 + j)}
+			}
+			w.mu.Lock()
+			w.kind, w.next, w.walkI = "Walk", puppet.Result{Res: "ok"}, 0
+			if n > 0 {
+				w.next.Vals = map[string]any{"qids": append([]p9.QID{}, qids...)}
+			}
+			w.mu.Unlock()
+			got, nf, err := w.dirs[c].Walk(names)
+			if err != nil {
+				o.Findings = append(o.Findings, fmt.Sprintf("%s: %v", desc, err))
+				return
+			}
+			defer nf.Close()
+			if n == 0 {
+				// a clone: one QID (the file's own) or none, by the protocol version; not compared
+				hd.want, hd.got = "", func() string { return "" }
+			} else {
+				hd.want = fmt.Sprint(qids)
+				hd.got = func() string { return fmt.Sprint(got) }
+			}
+		case "Rread":
+			w.mu.Lock()
+			w.kind, w.fill = "ReadAt", byte('A'+w.seq%26)
+			fill := w.fill
+			w.mu.Unlock()
+			buf := make([]byte, n*7)
+			k, err := w.files[c].ReadAt(buf, 0)
+			if n > 0 && (err != nil || k != len(buf)) {
+				o.Findings = append(o.Findings, fmt.Sprintf("%s: n = %d, err = %v", desc, k, err))
+				return
+			}
+			hd.want = strings.Repeat(string(fill), n*7)
+			hd.got = func() string { return string(buf) }
+		case "Rxattrlist":
+			names := make([]string, n)
+			for j := range names {
+				names[j] = fmt.Sprintf("user.%s_%d", id, j)
+			}
+			w.mu.Lock()
+			w.kind, w.next = "ListXattrs", puppet.Result{Res: "ok", Vals: map[string]any{"names": append([]string{}, names...)}}
+			w.mu.Unlock()
+			got, err := w.files[c].ListXattrs()
+			if err != nil {
+				o.Findings = append(o.Findings, fmt.Sprintf("%s: %v", desc, err))
+				return
+			}
+			hd.want = strings.Join(names, "|")
+			hd.got = func() string { return strings.Join(got, "|") }
+		case "Rreadlink":
+			tgt := strings.Repeat("t", n) + id
+			w.mu.Lock()
+			w.kind, w.next = "Readlink", puppet.Result{Res: "ok", Vals: map[string]any{"target": tgt}}
+			w.mu.Unlock()
+			got, err := w.links[c].Readlink()
+			if err != nil {
+				o.Findings = append(o.Findings, fmt.Sprintf("%s: %v", desc, err))
+				return
+			}
+			hd.want = tgt
+			hd.got = func() string { return got }
+		default:
+			o.Findings = append(o.Findings, "unknown type "+v.Typ)
+			return
+		}
+		if g := hd.got(); g != hd.want {
+			o.Findings = append(o.Findings, fmt.Sprintf("%s: the caller received %.200q, the reply's own content is %.200q", desc, g, hd.want))
+			return
+		}
+		all = append(all, hd)
+		for k, e := range all[:len(all)-1] {
+			if g := e.got(); g != e.want {
+				o.Findings = append(o.Findings, fmt.Sprintf("%s - what this call returned was %.200q; after message %d of the history it reads %.200q (a later reply was decoded into storage the caller still holds)", e.desc, e.want, i+1, g))
+				_ = k
+				return
+			}
+		}
+	}
+	if len(o.Samples) < 3 {
+		o.Samples = append(o.Samples, v)
+	}
+}
+
 // shortFrames: after a complete message with recognisable content on one connection, the other
 // connection sends frames of the same type whose body is cut short (every length from the fixed
 // part to one byte before the end).  The decoder must not complete them from bytes an earlier
@@ -418,6 +626,7 @@ func main() {
 		fmt.Fprintln(os.Stderr, err)
 		os.Exit(2)
 	}
+	var cw *cworld
 	sc := bufio.NewScanner(f)
 	sc.Buffer(make([]byte, 1<<20), 16<<20)
 	i := 0
@@ -437,7 +646,17 @@ func main() {
 			o.Findings = append(o.Findings, "bad vector: "+err.Error())
 			continue
 		}
-		run(w, &v, o)
+		if strings.HasPrefix(v.Typ, "R") {
+			if cw == nil {
+				if cw, err = newCWorld(); err != nil {
+					fmt.Fprintln(os.Stderr, "client world:", err)
+					os.Exit(2)
+				}
+			}
+			runClient(cw, &v, o)
+		} else {
+			run(w, &v, o)
+		}
 		if len(o.Findings) > 25 {
 			break
 		}
